@@ -153,7 +153,7 @@ func checkPosition(in buildInput, be *scriggo.BuildError) (sig, desc string) {
 	return "", ""
 }
 
-var reMultiComment = regexp.MustCompile(`(?s)\{#[^}]*\n`)
+var reMultiComment = regexp.MustCompile(`(?s)\{#.*\n`)
 
 // posClass names the known cause of a line/column deviation present in src
 // (the classes are those the lexer model flags, see props/C21.v), or "other".
@@ -269,8 +269,12 @@ func shrink(in buildInput, site string) buildInput {
 
 func goroutinesSettle(base int) int {
 	n := runtime.NumGoroutine()
-	for i := 0; i < 200 && n > base; i++ {
-		time.Sleep(time.Millisecond)
+	for i := 0; i < 400 && n > base; i++ {
+		if i < 50 {
+			runtime.Gosched()
+		} else {
+			time.Sleep(200 * time.Microsecond)
+		}
 		n = runtime.NumGoroutine()
 	}
 	return n
